@@ -88,19 +88,20 @@ def rr_name(serial, size, lead, salt=0):
 
 
 def joliet_name(serial, size, lead, salt=0):
-    """Joliet name: <= 64 UTF-16 units; the library counts UTF-8 bytes, so non-ASCII names
-    are kept <= 64 UTF-8 bytes as well (longer ones are over-refused, which is C09/C13's
-    business)."""
+    """Joliet name: <= 64 UTF-16 code units (BMP and astral characters mixed in)."""
     alpha = 'abcdefghijklmnopqrstuvwxyzABCDEFGHIJKLMNOPQRSTUVWXYZ0123456789._- '
     p = alpha[lead % 62]
     n = [5, 12, 30, 63, 64][size % 5]
     s = (p + b36(serial).lower() + _fill(alpha, n, salt))[:n]
     if salt % 4 == 3:
-        # sprinkle BMP / astral characters, staying within 64 utf-8 bytes and 64 units
         ins = UNI_BMP[salt % len(UNI_BMP)] if salt % 8 != 7 else UNI_ASTRAL[salt % 2]
         s = s[:5] + ins + s[5:]
-        while len(s.encode('utf-8')) > 64 or len(s.encode('utf-16_be')) // 2 > 64:
-            s = s[:-1]
+    elif salt % 4 == 2 and n >= 30:
+        # mostly non-ASCII: many UTF-8 bytes per UTF-16 unit
+        body = ''.join(UNI_BMP[(salt + i) % len(UNI_BMP)] for i in range(n - 6))
+        s = s[:5] + body
+    while len(s.encode('utf-16_be')) // 2 > 64:
+        s = s[:-1]
     return s.rstrip(' .') or ('j' + b36(serial))
 
 
